@@ -94,6 +94,7 @@ theorem lookup_rep (tb : Tabs) (ch : List Frame) (h : Rep tb.p tb.a tb.t ch) (s 
     simp only [hk, ↓reduceIte] at hs
     simp only [h.p, h.a]
     exact pa_lookup ch _ hs
+  | bn => simp
 
 theorem resolvePhase_rep (ph : Phase) (tb : Tabs) (ch : List Frame) (h : Rep tb.p tb.a tb.t ch)
     (ss : List Slot) (hs : slotsOK ch ss = true) :
